@@ -906,7 +906,9 @@ func (x *Exec) rangeStmt(s *ast.RangeStmt, st *State, label string) outcome {
 	nName := x.sym.Fresh("rangelen", SInt)
 	st.assume(Eq(nName, n))
 	// hidden index
-	idxObj := types.NewVar(token.NoPos, nil, "_k", types.Typ[types.Int])
+	// (named _k<ordinal>, so that invariants of nested loops can refer to
+	// the position of an enclosing range loop; its own invariants say _k)
+	idxObj := types.NewVar(token.NoPos, nil, fmt.Sprintf("_k%d", ord), types.Typ[types.Int])
 	st.vars[idxObj] = IntLit(0)
 	extra := func(s *State) map[string]Val {
 		return map[string]Val{"_k": {T: s.vars[idxObj], Ty: tyInt}, "_n": {T: nName, Ty: tyInt}}
